@@ -14,6 +14,9 @@ NATIVE = []
 # harness modules that use helper items (callee-contract stubs) defined in the harness module of another file
 FILE_DEPS = {
     'src/mnemonic.rs': ['src/mnemonic/wordlist.rs', 'src/rand.rs'],
+    'src/transaction/legacy.rs': ['src/transaction/rlp.rs'],
+    'src/transaction/eip2930.rs': ['src/transaction/rlp.rs'],
+    'src/transaction/eip1559.rs': ['src/transaction/rlp.rs'],
 }
 
 
@@ -200,6 +203,41 @@ N('nb_member_kind_grammar', TD, 'MemberKind::{from_str, Display}', {'C08': Q, 'C
   'native: 11 base words + bytes0..40 + uint/int 0..300 with array-suffix combinations up to depth 3 over 4 sizes (55590 strings) + one depth-64 string')
 
 # ---------------------------------------------------------------------------
+# C04 — account
+ACC = 'src/account.rs'
+K('c04_new_32_bytes', ACC, 'PrivateKey::{new,secret}', {'C04': Q, 'C17': Q},
+  'for all 32-byte strings b: PrivateKey::new(b) is Ok iff 0 < b < n (secp256k1 order), and then secret() == b (real k256 range check)')
+for _l in (0, 1, 16, 23, 24, 31, 33, 64):
+    K(f'c04_new_len{_l}', ACC, 'PrivateKey::{new,secret}', {'C04': Q, 'C17': Q},
+      f'for all byte strings of length {_l}: rejected, or taken as the same big-endian integer (zero-extended to 32 bytes); never panics', complete=True,
+      bound=f'length {_l}; lengths 0..64 other than those listed are not machine-checked')
+K('c04_address_is_keccak_tail', ACC, 'PrivateKey::address', {'C04': Q},
+  'address() hashes exactly the 64 coordinate bytes of the uncompressed encoding (tag byte dropped) with one Keccak call and returns the last 20 bytes of the digest (encode_uncompressed and Digest::of as callee contracts)',
+  complete=True, replay='none')
+
+# ---------------------------------------------------------------------------
+# C06 / C11 / C13 — transactions
+LEG, E29, E15, SER, TXN = 'src/transaction/legacy.rs', 'src/transaction/eip2930.rs', 'src/transaction/eip1559.rs', 'src/serialization.rs', 'src/transaction.rs'
+for _n, _d in (('signed_chain', 'signed, chain id present, recipient present'), ('signed_nochain', 'signed, no chain id, no recipient'),
+               ('unsigned_chain', 'unsigned, chain id present, no recipient'), ('unsigned_nochain', 'unsigned, no chain id, recipient present')):
+    K(f'c06_legacy_{_n}', LEG, 'LegacyTransaction::rlp_encode', {'C06': Q, 'C11': Q},
+      'legacy encoding is one RLP list of [nonce, gasPrice, gas, to | empty string, value, data] followed by (v = 35 + 2*chainId + yParity | 27 + yParity, r, s) when signed, (chainId, 0, 0) when unsigned with a chain id, nothing otherwise; every field value symbolic (element encoders as recording callee contracts, proved in C07)',
+      complete=True, bound=f'shape: {_d}; 2 bytes of calldata; all numeric values, recipient, calldata bytes, parity symbolic', replay='none', timeout=900)
+K('c11_chain_id_invariant', LEG, 'legacy::deserialize_chain_id', {'C11': Q, 'C06': Q, 'C17': Q},
+  'a deserialized legacy chain id is kept unchanged, and is refused iff 35 + 2c + 1 does not fit 256 bits: the precondition under which Signature::v is exact (c11_v_exact_in_range) holds for every LegacyTransaction built from JSON',
+  complete=True, replay='none')
+for _h in ('c13_visitor_u256_from_u64', 'c13_visitor_u256_from_nonneg_i64', 'c13_visitor_u256_from_nonneg_f64', 'c13_visitor_i256_from_i64', 'c13_visitor_i256_from_f64'):
+    K(_h, SER, 'ethnum permissive visitor as instantiated by serialization::uint / typeddata', {'C13': Q, 'C09': Q, 'C17': Q},
+      'for every JSON number of that Rust type: taken at exactly its mathematical value, or refused when fractional / not exactly representable (|x| >= 2^53)', complete=True)
+N('nb_tx_encoding_vs_reference', TXN, 'Transaction::{deserialize, signing_message, encode}', {'C06': Q, 'C07': Q, 'C11': Q},
+  'signed bytes and signing digest equal a reference encoder written from the Yellow Paper / EIP-155 / 2930 / 1559; a strict decoder accepts the output, consumes it completely and returns every field',
+  'native: 3 kinds x 68 calldata lengths (0..=60, 255..257, 1100, 65535..65537) x 3 random field draws (byte widths 0..32, access lists up to 3x3) x 3 signatures (r,s at 1, n-1, random; both parities)')
+N('nb_tx_kind_dispatch', TXN, 'Transaction::deserialize', {'C06': Q}, 'EIP-1559 when a fee-market field is present, else EIP-2930 when an access list is present, else legacy', 'native: all 8 key-presence combinations')
+N('nb_tx_json_number_spellings', TXN, 'transaction field deserialization', {'C13': Q, 'C11': Q},
+  'every spelling of an integer denotes the same value and gives the identical encoding; negative, fractional, inexact, >= 2^256, empty and non-numeric spellings are refused; bytes need 0x + even hex; addresses 20 bytes; storage keys 32 bytes; legacy chain ids beyond 2^255-19 refused',
+  'native: 16 numeric fields x 14 integers x up to 6 spellings; 30 malformed spellings per field; 12 byte/address and 7 access-list malformations per kind')
+
+# ---------------------------------------------------------------------------
 # bin crate: C16 key selection, C18 vanity prefix, C19 hex; process-level native stand-ins
 CMD, NEW, CLI = 'src/cmd.rs', 'src/cmd/new.rs', 'tests/verif_native_cli.rs'
 K('c16_private_key_selection', CMD, 'AccountOptions::private_key', {'C16': Q, 'C17': Q},
@@ -239,16 +277,55 @@ N('nb_cli_vanity_search', CLI, 'new --vanity-prefix', {'C18': Q, 'C12': Q},
   'native CLI: 27 prefixes (all single digits both cases, four 2-digit, one 3-digit) x thread counts 0,1,2,16 x rotating vanity options, 2 repetitions for 1-digit prefixes')
 
 # ---------------------------------------------------------------------------
+# C17 is the union of the safety obligations of the harnesses above; its quick tier re-runs a representative subset (one or
+# two harnesses per entry point named in the statement), its thorough tier all of them.
+_C17_QUICK = {
+    'c01_byte_length_total', 'c01_from_phrase_n12', 'c01_from_phrase_n13', 'c01_from_phrase_n14', 'c01_from_phrase_n24', 'c01_from_phrase_n25',
+    'c01_to_phrase_len32', 'c12_random_n12', 'c12_random_n13', 'c14_component_text_len0', 'c14_component_text_len10', 'c14_component_text_len11',
+    'c15_from_str_other_lengths', 'c15_from_str_modular_130', 'c11_v_exact_in_range', 'c11_chain_id_invariant', 'c04_new_32_bytes', 'c04_new_len0',
+    'c04_new_len33', 'c09_encode_uint_range', 'c09_encode_int_range', 'c09_encode_bytes_n', 'c13_visitor_u256_from_nonneg_f64', 'c13_visitor_i256_from_i64',
+    'c18_prefix_from_str_d1', 'c18_prefix_from_str_d2', 'c16_private_key_selection', 'c07_len_complete', 'c07_uint_complete',
+}
+for _h in KANI:
+    if 'C17' in _h['props']:
+        _h['props']['C17'] = Q if _h['name'] in _C17_QUICK else T
+
+# ---------------------------------------------------------------------------
 NOT_APPLICABLE = {
     'C02': 'the property is the definition of PBKDF2-HMAC-SHA512 and NFKD in the pbkdf2/hmac/sha2/unicode-normalization dependencies; no contract within reach of Verus (cannot link the crates) or Kani (2048x2 SHA-512 compressions on symbolic input; trait-method call sites cannot be stubbed) can express or decide it',
     'C03': 'derive_slice interleaves its glue with HMAC-SHA512, SEC1 compression and secp256k1 scalar addition from hmac/k256 inside one loop body; those trait-method calls cannot be cut out by Kani stubs nor seen by Verus, and symbolic HMAC/EC arithmetic has no tractable encoding or independent oracle',
     'C05': 'try_sign is a single call into k256 RFC 6979 signing; validity, recoverability, low-s and RFC 6979 equality are theorems about secp256k1/HMAC-DRBG in the dependency that neither installed verifier can express',
 }
-_PENDING = 'check not built yet in this session (see DESIGN.md for the planned contracts)'
-for _p in ('C04', 'C06', 'C11', 'C13', 'C16', 'C17'):
-    NOT_APPLICABLE.setdefault(_p, _PENDING)
 
 PROPS = {
+    'C04': dict(level='proof',
+                technique='Kani/CBMC contracts on the real PrivateKey::new / secret (k256 range check over all 32-byte values) and PrivateKey::address (callee contracts for the point encoding and Keccak)',
+                claim='Proved: a 32-byte secret is accepted iff it is in [1, n-1] and is stored unchanged; byte strings of lengths 0, 1, 16, 23, 24, 31, 33, 64 are rejected or taken as the same big-endian integer; the address is the last 20 bytes of one Keccak-256 call over exactly the 64 coordinate bytes. NOT decided (dependency theorems, assumed): the public key is secret*G in 65-byte SEC1 form (k256), Keccak-256 itself (ethdigest), the EIP-55 display casing (ethaddr).',
+                note='The claim is restricted to the three clauses above; the elliptic-curve and hash clauses of C04 are properties of k256 / ethdigest / ethaddr that no contract within reach can express (same reason as C05). encode_uncompressed (4 lines of dependency calls) is trusted to return 0x04 || X || Y.'),
+    'C06': dict(level='proof',
+                technique='Kani/CBMC contracts on the real LegacyTransaction::rlp_encode with the element encoders as recording callee contracts (proved in the C07 Verus unit, which runs again here); native reference-encoder stand-in for the typed kinds and the JSON layer',
+                claim='Proved for legacy transactions in all four shapes (signed/unsigned x chain id present/absent), every numeric value, recipient, calldata byte and parity symbolic: the output is one RLP list of exactly [nonce, gasPrice, gas, to | empty, value, data] plus the tail (35 + 2c + p | 27 + p, r, s), (c, 0, 0) or nothing; rlp::{len,bytes,uint,list} are proved equal to the Yellow-Paper encoding for all inputs (Verus). EIP-2930 / EIP-1559 field order, the type byte, kind dispatch and the JSON-to-field mapping are covered only by the bounded native differential against a reference encoder with a strict decoder (1836 signed encodings).',
+                note='Eip2930/Eip1559 rlp_encode exhaust CBMC memory (slice concat + iterator chains) even with all encoders stubbed; Transaction::{signing_message, encode} dispatch cannot be compiled by Kani 0.68 (internal error on the niche-encoded Transaction enum discriminant). "Recovers to the signer" needs C05 (not applicable). Keccak-256 assumed.',
+                jobs=8),
+    'C11': dict(level='proof',
+                technique='Kani/CBMC contracts: Signature::v over all representable chain ids on the real ethnum arithmetic, the deserialization invariant that establishes its precondition, and the legacy EIP-155 tails',
+                claim='Proved: v(Some(c)) == 35 + 2c + yParity exactly over the naturals for every c <= 2^255 - 19 (every c for which the value fits 256 bits), v(None) == 27 + yParity; every legacy chain id accepted from JSON satisfies that bound (larger ones are refused with an error), so no wrap-around is reachable; the unsigned legacy payload ends in (c, 0, 0) iff a chain id is present and the signed one carries that v. The refusal to sign an unprotected legacy transaction without the override flag is checked only by the bounded native CLI stand-in (Kani 0.68 cannot compile a match on the Transaction enum).',
+                note='Typed transactions carrying the chain id as first signed field: native reference differential only (see C06). "A signature for one chain id never validates under another" additionally needs collision resistance of Keccak and C05; assumed.'),
+    'C13': dict(level='proof',
+                technique='Kani/CBMC contracts on the real ethnum permissive visitor as instantiated by this crate, over every u64 / i64 / f64 JSON number; native stand-in for strings and for the repository\'s negative-number guard',
+                claim='Proved for every JSON number: a non-negative integer or float is taken at exactly its mathematical value or refused (fractional, >= 2^53 floats), for unsigned fields and for signed typed-data values. Bounded (native): the repository helper that refuses negative numbers before delegating, decimal / hex string spellings (14 integers incl. the 2^53, 2^64, 2^255-19, 2^256 boundaries, 30 malformed spellings) on all 16 numeric fields, byte / address / storage-key rules, identical encodings for equal integers.',
+                note='serialization::uint::deserialize itself (serde_json Value round trip) does not terminate under CBMC and its dependency trait impl cannot be stubbed, so the negative-number guard is only in the native stand-in. Observation (dependency behaviour, not claimed as a defect): the signed visitor accepts the float -2^53, the one point where a float literal may already have been rounded by the JSON parser. ethaddr address parsing is dependency code (assumed).'),
+    'C16': dict(level='other',
+                technique='Kani/CBMC data-flow contract on the real AccountOptions::private_key with recording callee stubs; process-level native stand-in for everything clap / stdout / environment',
+                claim='PARTIAL. Proved: for any passphrase, account index and optional path text, the key returned is hdk::derive(mnemonic.seed(passphrase), path) where path is Path::for_index(account_index) without --hd-path and the parsed text with it (the index then being ignored), errors propagate and nothing is derived for an invalid selector. Bounded (native CLI): address / export / public-key print the library\'s values for 2 mnemonics x 3 passphrases x 8 selectors, flags == environment variables, the selectors conflict, every sign subcommand signs exactly the digest the matching hash subcommand prints (recovered to the selected key).',
+                note='clap derive output (flag/env equivalence, conflicts_with, defaults), stdout text and exit status are not visible to a sequential contract verifier; Path::for_index is a native bounded stand-in (C14); BIP-32 derivation and ECDSA are C03/C05 (not applicable).',
+                explanation='Data flow of the account selector is decided by one complete Kani harness with all callees as recording stubs; the printed results and sign/hash pairing are exercised through the real binary on an enumerated set of selectors and inputs (bounded, stated in the evidence).',
+                native_timeout=2400),
+    'C17': dict(level='proof',
+                technique='union of the panic / overflow / bounds / unwinding obligations of every complete Kani harness and Verus unit of the other properties, run under the weakest preconditions; process-level native stand-in for exit codes',
+                claim='For each entry point listed in the evidence (mnemonic phrases of 0..40 words, length table, Mnemonic::random, path components up to 12 characters, signature text up to 140 characters, Signature::v with the deserialization invariant, private-key bytes, uintN/intN/bytesN values, JSON numbers, vanity prefix text and matching, RLP lengths of every size) Kani\'s default checks (panic, unwrap, arithmetic overflow, out-of-bounds, invalid shift, pointer validity) and unwinding assertions, resp. Verus\' overflow / bounds / termination obligations, are discharged over the full symbolic domain of the harness. Bounded (native): about 230 malformed inputs through the real CLI end in an ordinary error (non-zero exit that is not a panic, message, no output), 64 array suffixes are accepted.',
+                note='Not decided here: the digest CLI argument (ethdigest FromStr), JSON nesting up to 128 (serde_json), worker counts (threads), the mapping of errors to exit status in main.rs and termination of the vanity search are process / dependency level and only exercised by the native CLI stand-in; typed-data type strings and hex input are native bounded stand-ins (C08, C19).',
+                native_timeout=2400, jobs=16),
     'C09': dict(level='proof',
                 technique='Kani/CBMC contracts on the real Types::encode_value integer and bytesN arms over all values and widths; native differential stand-in for the JSON / collection layer',
                 claim='The range logic is proved: for every width and every 256-bit value, uintN is accepted iff v < 2^N, intN iff -2^(N-1) <= v < 2^(N-1), bytesN iff the payload has exactly N bytes (payloads up to 40 bytes), with the exact word layout. The remaining clauses (negative numbers for unsigned types in every spelling, fixed array sizes, missing / undeclared members, undefined struct types, wrong JSON kinds, nothing hashed on refusal) are checked only by the bounded native differential against a reference implementation.',
